@@ -309,6 +309,15 @@ def run_file_seed(seed_i, tier, part):
                 c[f"probe:no_site_for_{kind}"] += 1
                 continue
             scn = dict(base, rec_faults=pf[0], file_faults=pf[1], planned={"kind": kind, "record": k})
+            # how the application drives the reader: one for loop, next() only, or iteration resumed on the
+            # same reader after some records were taken (header = next(reader); for rec in reader: ...)
+            sel = (k * 7 + len(kind)) % 5
+            if sel == 1:
+                scn["style"] = "next"
+            elif sel == 2 and k >= 2:
+                scn["style"] = f"resume:{1 + (k + len(kind)) % (k - 1)}"
+            elif sel == 3 and k >= 2:
+                scn["style"] = f"twice:{1 + (k + len(kind)) % (k - 1)}"
             if base["config"] == "packaged" and (k + len(kind)) % 3 == 0:
                 if enc in ("latin_1", "cp500") and (k + len(kind)) % 2 == 0:
                     scn["tool"] = "mideu"
@@ -324,6 +333,7 @@ def run_file_seed(seed_i, tier, part):
                 c["probe:error_raised_at_record_beyond_first"] += 1
             if info.get("tool"):
                 c[f"probe:reported_through_tool_{scn['tool']}"] += 1
+            c[f"knob:reader_driven_by={scn.get('style', 'for').split(':')[0]}"] += 1
             part["sigs"].add(sig64("C10", fd, k, kind))
             h.update(f"{k},{kind},{info['kind']},{info['delivered']},{info['recno']};".encode())
             for v in fails:
